@@ -61,6 +61,7 @@ def check(run, project):
     from .c09 import s3
     s3(run, roles, L)  # which session bit makes the first parameter opaque (decrypt for commands, encrypt for responses)
     helper_semantics(run, project, roles)
+    w9(run, roles)
     # W8: a decode starts from its own empty region list (a shared default would charge this decode with regions
     # another decode left open, and reject a well-formed encoding)
     from .c03 import r4
@@ -196,7 +197,7 @@ def w1(run, roles, L):
             run.ob("W1", k.arg in params and norm(k.value) == k.arg, f"dispatch -> {w}: {k.arg} passed through",
                    f"keyword {k.arg}={norm(k.value)}", module=mod, node=call, func=disp.name, construct=f"{w}(...) {k.arg}")
     # the dispatcher returns what the walker returned
-    rets = [s for s in disp.body if isinstance(s, ast.Return)]
+    rets = [s for s in walk_no_nested(disp) if isinstance(s, ast.Return)]
     run.ob("W1", len(rets) == 1 and norm(rets[0].value) == roles.dispatch_result, "dispatcher returns the walker's result",
            "dispatcher does not return the delegated result", module=mod, node=disp, func=disp.name, construct="dispatcher return")
     run.cover(types_classified=n)
@@ -669,3 +670,34 @@ def helper_semantics(run, project, roles):
         and "new_type.__annotations__ = {**first_param, **other_params}" in txt and "return tpm_dataclass(new_type)" in txt
     run.ob("F", ok, "encrypted(): first parameter becomes TPM2B_ENCRYPTED_PARAM, the others keep their order",
            "the synthesis of the encrypted parameter layout changed", module=pc, node=e, func="TPMS_PARAMS.encrypted")
+
+
+def w9(run, roles):
+    """parameters that carry decoded data or the decode position are never re-bound inside a walker
+    (clamping / normalising a count, selector, command code or path changes what is decoded); the only
+    re-binding is the encrypted-layout substitution of `tpm_type` in the struct walker (checked by F)."""
+    mod = roles.mod
+    data_params = {"count", "selector", "command_code", "parameter_encryption", "array_size_constraint", "path", "tpm_type",
+                   "abort_on_error"}
+    n = 0
+    for w, fn in list(roles.walkers.items()) + [(roles.dispatcher.name, roles.dispatcher)]:
+        params = {a.arg for a in fn.args.args} & data_params
+        for st in walk_no_nested(fn):
+            targets = []
+            if isinstance(st, ast.Assign):
+                targets = st.targets
+            elif isinstance(st, (ast.AugAssign, ast.AnnAssign)):
+                targets = [st.target]
+            elif isinstance(st, (ast.For, ast.comprehension)):
+                targets = [st.target]
+            for t in targets:
+                for nm in [x for x in ast.walk(t) if isinstance(x, ast.Name) and isinstance(x.ctx, ast.Store)]:
+                    if nm.id in params:
+                        allowed = (w == "process_tpms" and nm.id == "tpm_type" and norm(st) == "tpm_type = tpm_type.encrypted()") or \
+                                  (w in ("process_command", "process_response") and nm.id in ("parameter_encryption",) and w == "process_command")
+                        n += 1
+                        run.ob("W9", allowed, f"{w} L{st.lineno}: re-binding of `{nm.id}`",
+                               f"`{norm(st).splitlines()[0][:80]}` re-binds the parameter `{nm.id}` inside the walker: the decoded "
+                               "count / selector / code / position is altered before it is used", module=mod, node=st, func=w,
+                               construct=f"{w} rebinds {nm.id}")
+    run.ob("W9", True, f"walker parameters carrying decoded data are not re-bound ({n} allowed re-bindings)")
